@@ -9,6 +9,7 @@ import copy
 import json
 import os
 import random
+import re
 import shutil
 
 BOOT = {'kernel': False}
@@ -603,6 +604,12 @@ def snapshot_experiment(exp):
         d['nodes'][n].pop('env', None)  # launch-environment: not part of the stored description
     conc = wg.configuration.get_flowir_concrete(return_copy=True)
     d['platform'] = wg.configuration.platform_name
+    # the name of the experiment (also handed to every task as FLOW_EXPERIMENT_NAME) is derived from the package by the
+    # writer and from the instance directory by a process that loads the instance; the case hash is taken out
+    try:
+        d['experiment_name'] = re.sub(r'[0-9a-f]{12}', '<H>', str(exp.instanceDirectory.name))
+    except Exception as e:
+        d['experiment_name'] = 'ERR:%s' % type(e).__name__
     # the environments the components name, as the selected platform resolves them (default layered under the platform)
     conc_live = wg.configuration.get_flowir_concrete(return_copy=False)
     envs = {}
